@@ -391,6 +391,25 @@ func check(c Case) hx.Verdict {
 			return hx.Bad("", "`explode(.) | %s | path` is %v, expected %s\n%s", q, js(gp), wantPath.JSON(), c.Text)
 		}
 	}
+	// route 6: the same read in eval-all mode behind a first document that has no alias at all (what is done to the
+	// results of one document does not depend on the documents before it)
+	{
+		// (the plain document is printed first, then what is read from the second)
+		o6 := hx.Run("select(di == 0), (select(di == 1) | "+q+")", "plain: 1\n---\n"+c.Text, hx.Opts{Out: "json", IndentSet: true, EvalAll: true})
+		var g6 *model.Value
+		if o6.OK() {
+			if vs, err := model.ParseJSONStream(o6.Out); err == nil && len(vs) == 2 {
+				g6 = vs[1]
+			} else {
+				o6.Err = fmt.Sprintf("%d results", len(vs))
+			}
+		}
+		if !strings.HasPrefix(c.Text, "#") && !strings.HasPrefix(c.Text, "---") {
+			if v := judge("route 6 (eval-all, second document)", g6, o6, traverseDev, explodeDev); v != nil {
+				return *v
+			}
+		}
+	}
 	// route 3: convert to JSON, then look up
 	g3, o3 := jsonOne(".", c.Text)
 	if v := fail(o3, "route 3"); v != nil {
